@@ -113,8 +113,13 @@ def generate(repo, emit, src, func_body):
         'type_alloc': ('Type_Alloc', 'Type', None, None),
         'alloc_stack': ('alloc_stack', 'T', None, None),
     }
+    # alloc_by may delegate the default allocation to a helper f(var type) of Alloc.c that it calls as f(type)
+    a0 = src('src/Alloc.c')
+    ab0 = func_body(a0, r'static\s+var\s+alloc_by\s*\(\s*var\s+type\s*,\s*int\s+method\s*\)\s*\{') or ''
+    ab_helpers0 = [mm.group(1) for mm in re.finditer(r'^static\s+var\s+(\w+)\s*\(\s*var\s+type\s*\)\s*\{', a0, re.M)
+                   if re.search(r'\b%s\(\s*type\s*\)' % mm.group(1), ab0)]
     for key, (fn, te, file, pat) in binds.items():
-        hit = [c for (f, t, c) in sites if f == fn and t == te]
+        hit = [c for (f, t, c) in sites if (f == fn or (key == 'alloc_by' and f in ab_helpers0)) and t == te]
         good = ok and len(hit) == 1 and (pat is None or re.search(pat, src(file)))
         emit('hdr_site_' + key, ('Definition hdr_site_%s : nat := %d.   (* %s: header_init(., %s, .) *)' % (key, hit[0], fn, te)) if good else None)
 
@@ -133,8 +138,88 @@ def generate(repo, emit, src, func_body):
     okt = bool(b) and re.search(r'if\s*\(\s*head->type\s+is\s+NULL\s*\)\s*\{\s*head->type\s*=\s*Type;\s*\}\s*return\s+head->type\s*;', b)
     emit('hdr_typeof_null_is_type', 'Definition hdr_typeof_null_is_type : bool := true.' if okt else None)
 
-    # ---------------------------------------------------------------- dealloc
+    # ---------------------------------------------------------------- shared recognisers
+    # (accepted equivalent code shapes and why they denote the same model are listed in design.d/C19.md, "Benign changes")
+    def static_funcs(text):
+        """name -> body of every function defined in this file"""
+        out = {}
+        for mm in re.finditer(r'^(?:static\s+)?[A-Za-z_][\w\s\*]*?\b([A-Za-z_]\w*)\s*\(([^;{)]*)\)\s*\{', text, re.M):
+            bd = func_body(text, re.escape(mm.group(0)))
+            if bd:
+                out[mm.group(1)] = (mm.group(2), bd)
+        return out
+
+    def switch_classes(body, action_re):
+        """classes whose `case` labels (stacked labels allowed) lead to a statement matching action_re, in a
+        switch over header(self)->alloc; None when there is no such switch"""
+        sw = re.search(r'switch\s*\(\s*\(intptr_t\)\s*header\(self\)->alloc\s*\)\s*\{', body)
+        if not sw:
+            return None
+        rest = body[sw.end():]
+        found = []
+        for mm in re.finditer(r'((?:case\s+Alloc\w+\s*:\s*)+)([^:]*?;)', rest):
+            labels = re.findall(r'case\s+(Alloc\w+)', mm.group(1))
+            if re.match(action_re, mm.group(2).strip()):
+                found += labels
+        return found
+
+    def side_effect_free(body, allowed_throw):
+        """nothing but the refusal: no assignment, no libc memory call, no other call than throw/header"""
+        t = re.sub(r'throw\([^;]*;', '', body)
+        t = re.sub(r'"[^"]*"', '""', t)
+        if re.search(r'[^=!<>]=[^=]', t) or re.search(r'\b(free|realloc|malloc|calloc|memset|memcpy|memmove|strcpy)\s*\(', t):
+            return False
+        return True
+
+    def refusal_helpers(text, exn):
+        """functions f(var self, ...) of this file whose whole effect is `throw(exn, ...)` for a set of allocation
+        classes (if-form or switch-form): name -> classes.  A call f(self, ...) is then the same as the inline guard."""
+        out = {}
+        for name, (params, bd) in static_funcs(text).items():
+            if not re.match(r'\s*var\s+self\b', params):
+                continue
+            if len(re.findall(r'\bthrow\(', bd)) != 1 or not side_effect_free(bd, exn):
+                continue
+            cl = switch_classes(bd, r'throw\(\s*%s\b' % exn)
+            if cl is None:
+                g = re.search(r'if\s*\(\s*header\(self\)->alloc\s+is\s+\(var\)(Alloc\w+)(?:\s+or\s+header\(self\)->alloc\s+is\s+\(var\)(Alloc\w+))?\s*\)\s*\{\s*throw\(\s*%s\b' % exn, bd)
+                cl = [c for c in g.groups() if c] if g else None
+            if cl:
+                out[name] = cl
+        return out
+
+    def wording_helpers(text):
+        """functions f(var self) returning a non-NULL text exactly for some allocation classes (switch-form):
+        `x = f(self); if (x isnt NULL) { throw(E, ...) }` refuses exactly those classes"""
+        out = {}
+        for name, (params, bd) in static_funcs(text).items():
+            if not re.match(r'\s*var\s+self\s*$', params) or not side_effect_free(bd, None):
+                continue
+            cl = switch_classes(bd, r'return\s+"')
+            dflt = re.search(r'default\s*:\s*return\s+NULL\s*;', bd)
+            if cl and dflt:
+                out[name] = cl
+        return out
+
+    def refusals(body, text, exn_any=True):
+        """[(position, class name, exception)] of every refusal `class -> throw` in body: inline ifs, a wording
+        helper tested against NULL, or a refusal helper called with self"""
+        out = [(mm.start(), mm.group(1), mm.group(2)) for mm in re.finditer(refuse_re, body)]
+        for name, cl in wording_helpers(text).items():
+            mm = re.search(r'(\w+)\s*=\s*%s\(\s*self\s*\)\s*;\s*if\s*\(\s*\1\s+isnt\s+NULL\s*\)\s*\{\s*throw\(\s*(\w+)' % name, body)
+            if mm:
+                out += [(mm.start(), c, mm.group(2)) for c in cl]
+        return sorted(out, key=lambda r: (r[0], code(r[1]) or 0))
+
     a = src('src/Alloc.c')
+    afuncs = static_funcs(a)
+
+    def with_callees(body, names_only=False):
+        """body followed by the bodies of the functions of Alloc.c it calls (helpers inlined one level, for searching)"""
+        called = [n for n in afuncs if re.search(r'\b%s\s*\(' % n, body) and afuncs[n][1] != body]
+        return body + ''.join(afuncs[n][1] for n in called), called
+
+    # ---------------------------------------------------------------- dealloc
     d = func_body(a, r'\bvoid\s+dealloc\s*\(\s*var\s+self\s*\)\s*\{')
     chk = func_body(a, r'static\s+void\s+dealloc_check\s*\(\s*var\s+self\s*\)\s*\{')
     refuse_re = r'if\s*\(\s*header\(self\)->alloc\s+is\s+\(var\)(Alloc\w+)\s*\)\s*\{\s*throw\(\s*(\w+)'
@@ -143,7 +228,7 @@ def generate(repo, emit, src, func_body):
         call = re.search(r'dealloc_check\s*\(\s*self\s*\)\s*;', d)
         if call and chk:
             body = d[:call.start()] + chk + d[call.end():]
-        refs = [(mm.start(), mm.group(1), mm.group(2)) for mm in re.finditer(refuse_re, body)]
+        refs = refusals(body, a)
         fr = body.find('free(')
         scr = body.find('0xDeadCe110')
         cust = re.search(r'if\s*\(\s*a\s+and\s+a->dealloc\s*\)\s*\{\s*a->dealloc\(self\);\s*return;\s*\}', body)
@@ -156,13 +241,47 @@ def generate(repo, emit, src, func_body):
             emit('hdr_dealloc_check_first', 'Definition hdr_dealloc_check_first : bool := %s.' % ('true' if first else 'false'))
             emit('hdr_dealloc_custom_first', 'Definition hdr_dealloc_custom_first : bool := %s.' %
                  ('true' if cust and (not refs or cust.start() < refs[0][0]) else 'false'))
+        # the poison loop: where it starts and how many words it writes, as a function of H = sizeof(struct Header),
+        # w = sizeof(var), s = size(type); and what is handed to free()
+        HDRPTR = r'(?:header\(self\)|\(\(char\*\)self\)\s*-\s*sizeof\(struct Header\)|\(char\*\)self\s*-\s*sizeof\(struct Header\))'
+        head_local = re.search(r'struct Header\*\s*(\w+)\s*=\s*%s\s*;' % HDRPTR, d)
+        hp = HDRPTR if not head_local else r'(?:%s|%s)' % (HDRPTR, re.escape(head_local.group(1)))
+        s_local = re.search(r'size_t\s+(\w+)\s*=\s*size\(type_of\(self\)\)\s*;', d)
+        start = count = None
+        f1 = re.search(r'for\s*\(\s*size_t\s+(\w+)\s*=\s*0\s*;\s*\1\s*<\s*([^;]+);\s*\1\+\+\s*\)\s*\{\s*\(\(var\*\)\s*(%s)\)\[\1\]\s*=\s*\(var\)0xDeadCe110;\s*\}' % hp, d)
+        f2 = re.search(r'var\*\s*(\w+)\s*=\s*\(var\*\)\s*(%s)\s*;\s*var\*\s*(\w+)\s*=\s*\1\s*\+\s*([^;]+);\s*while\s*\(\s*\1\s*<\s*\3\s*\)\s*\{\s*\*\1\+\+\s*=\s*\(var\)0xDeadCe110;\s*\}' % hp, d)
+        if f1 and 'type_of' not in f1.group(2):        # the count must not re-read the type while it is being overwritten
+            count, start = f1.group(2), f1.group(3)
+        elif f2:
+            count, start = f2.group(4), f2.group(2)
+        coq_count = None
+        if count:
+            e = count
+            e = re.sub(r'sizeof\(struct Header\)', 'H', e)
+            e = re.sub(r'sizeof\(var\)', 'w', e)
+            e = re.sub(r'size\(type_of\(self\)\)', 's', e)
+            if s_local:
+                e = re.sub(r'\b%s\b' % re.escape(s_local.group(1)), 's', e)
+            e = re.sub(r'\s+', ' ', e).strip()
+            if re.fullmatch(r'[Hws0-9+*/() ]+', e):
+                coq_count = e
+        emit('hdr_poison_words', ('Definition hdr_poison_words (H w s : nat) : nat := %s.   (* words written with 0xDeadCe110, starting at the header *)' % coq_count)
+             if coq_count and start else None)
+        frm = re.search(r'free\(\s*(%s)\s*\)\s*;' % hp, d)
+        emit('hdr_dealloc_frees_block', 'Definition hdr_dealloc_frees_block : bool := true.'
+             if frm and (scr < 0 or d.find('0xDeadCe110') < frm.start()) else None)
     else:
         emit('hdr_dealloc_refuses', None)
 
     # ---------------------------------------------------------------- del_by / alloc_by
+    three = re.search(r'enum\s*\{\s*ALLOC_STANDARD\s*,\s*ALLOC_RAW\s*,\s*ALLOC_ROOT\s*\}', a)      # `method isnt ALLOC_RAW` == STANDARD or ROOT
+    callers_ok = three and all(re.search(r'\b%s\s*\(\s*var\s+\w+\s*\)\s*\{\s*(?:return\s+)?%s\(\w+,\s*ALLOC_%s\);\s*\}' % (f, by, m), a)
+                               for f, by, m in (('del', 'del_by', 'STANDARD'), ('del_raw', 'del_by', 'RAW'), ('del_root', 'del_by', 'ROOT'),
+                                                ('alloc', 'alloc_by', 'STANDARD'), ('alloc_raw', 'alloc_by', 'RAW'), ('alloc_root', 'alloc_by', 'ROOT')))
     b = func_body(a, r'static\s+void\s+del_by\s*\(\s*var\s+self\s*,\s*int\s+method\s*\)\s*\{')
     if b:
-        gc = re.search(r'case\s+ALLOC_STANDARD:\s*case\s+ALLOC_ROOT:\s*#ifndef\s+CELLO_NGC\s*rem\(current\(GC\),\s*self\);\s*return;\s*#endif\s*break;\s*case\s+ALLOC_RAW:\s*break;', b)
+        gc = re.search(r'case\s+ALLOC_STANDARD:\s*case\s+ALLOC_ROOT:\s*#ifndef\s+CELLO_NGC\s*rem\(current\(GC\),\s*self\);\s*return;\s*#endif\s*break;\s*case\s+ALLOC_RAW:\s*break;', b) \
+            or (callers_ok and re.search(r'#ifndef\s+CELLO_NGC\s*if\s*\(\s*method\s+isnt\s+ALLOC_RAW\s*\)\s*\{\s*rem\(current\(GC\),\s*self\);\s*return;\s*\}\s*#endif', b))
         emit('hdr_del_by_gc', 'Definition hdr_del_by_gc : bool := true.' if gc else None)
         tail = re.search(r'dealloc\(\s*destruct\(\s*self\s*\)\s*\)\s*;', b)
         if not tail:
@@ -170,10 +289,9 @@ def generate(repo, emit, src, func_body):
         else:
             pre = b[:tail.start()]
             c1 = re.search(r'dealloc_check\s*\(\s*self\s*\)', pre)
-            inline = [code(mm.group(1)) for mm in re.finditer(refuse_re, pre)]
-            refused = set(inline)
+            refused = set(code(c) for _, c, _ in refusals(pre, a))
             if c1 and chk:
-                refused |= set(code(mm.group(1)) for mm in re.finditer(refuse_re, chk))
+                refused |= set(code(c) for _, c, _ in refusals(chk, a))
             want = {code('AllocStatic'), code('AllocStack'), code('AllocData')}
             emit('hdr_del_by_checks_first', 'Definition hdr_del_by_checks_first : bool := %s.' %
                  ('true' if refused >= want else 'false'))
@@ -183,10 +301,20 @@ def generate(repo, emit, src, func_body):
     b = func_body(a, r'static\s+var\s+alloc_by\s*\(\s*var\s+type\s*,\s*int\s+method\s*\)\s*\{')
     m = b and re.search(r'case\s+ALLOC_STANDARD:\s*#ifndef\s+CELLO_NGC\s*set\(current\(GC\),\s*self,\s*\$I\((\d)\)\);\s*#endif\s*break;\s*'
                         r'case\s+ALLOC_RAW:\s*break;\s*case\s+ALLOC_ROOT:\s*#ifndef\s+CELLO_NGC\s*set\(current\(GC\),\s*self,\s*\$I\((\d)\)\);\s*#endif\s*break;', b)
+    regs = (m.group(1), m.group(2)) if m else None
+    if not regs and b and callers_ok and re.search(
+            r'#ifndef\s+CELLO_NGC\s*if\s*\(\s*method\s+isnt\s+ALLOC_RAW\s*\)\s*\{\s*set\(current\(GC\),\s*self,\s*\$I\(method\s+is\s+ALLOC_ROOT(?:\s*\?\s*1\s*:\s*0)?\)\);\s*\}\s*#endif', b):
+        regs = ('0', '1')        # $I(method is ALLOC_ROOT): 0 for STANDARD, 1 for ROOT, nothing for RAW
     emit('hdr_alloc_by', ('Definition hdr_alloc_by_standard : option nat := Some %s.\n'
                           'Definition hdr_alloc_by_raw : option nat := None.\n'
-                          'Definition hdr_alloc_by_root : option nat := Some %s.' % (m.group(1), m.group(2))) if m else None)
-    cust = b and re.search(r'if\s*\(\s*a\s+and\s+a->alloc\s*\)\s*\{\s*self\s*=\s*a->alloc\(\);\s*\}\s*else\s*\{', b)
+                          'Definition hdr_alloc_by_root : option nat := Some %s.' % regs) if regs else None)
+    # the allocation itself may sit in a helper called with `type` (one level)
+    ab_all, ab_called = with_callees(b) if b else ('', [])
+    ab_helpers = [n for n in ab_called if re.match(r'\s*var\s+type\s*$', afuncs[n][0]) and re.search(r'\b%s\(\s*type\s*\)' % n, b)]
+    cust = b and (re.search(r'if\s*\(\s*a\s+and\s+a->alloc\s*\)\s*\{\s*self\s*=\s*a->alloc\(\);\s*\}\s*else\s*\{', b)
+                  or any(re.search(r'\(\s*a\s+and\s+a->alloc\s*\)\s*\?\s*a->alloc\(\)\s*:\s*%s\(type\)' % n, b) for n in ab_helpers)
+                  or any(re.search(r'if\s*\(\s*a\s+and\s+a->alloc\s*\)\s*\{\s*return\s+a->alloc\(\);\s*\}', afuncs[n][1]) and
+                         afuncs[n][1].find('a->alloc()') < afuncs[n][1].find('calloc(') for n in ab_helpers))
     emit('hdr_alloc_custom_first', 'Definition hdr_alloc_custom_first : bool := true.' if cust else None)
     b = func_body(a, r'\bvar\s+copy\s*\(\s*var\s+self\s*\)\s*\{')
     okc = b and re.search(r'if\s*\(\s*c\s+and\s+c->copy\s*\)\s*\{\s*return\s+c->copy\(self\);\s*\}\s*return\s+assign\(alloc\(type_of\(self\)\),\s*self\);', b)
@@ -217,11 +345,18 @@ def generate(repo, emit, src, func_body):
                 st.pop()
         return st
 
+    vhelpers = {}      # per file: refusal helpers (ValueError) whose call with self is the guard itself
+
     def guard_classes(body, sites):
         """classes refused with ValueError on EVERY path to every site: a guard counts for a site only if it
         stands before it in a block that encloses the site (a guard inside one branch does not protect another)"""
         gs = [(g.start(), block_path(body, g.start()), sorted(c for c in (code(g.group(1)), code(g.group(2))) if c is not None))
               for g in re.finditer(guard_re, body) if g.group(3) == 'ValueError']
+        # a call of a helper that does nothing but refuse (one level): same as the inline guard at that position
+        for hname, hcl in vhelpers.items():
+            for g in re.finditer(r'\b%s\s*\(\s*self\b' % hname, body):
+                gs.append((g.start(), block_path(body, g.start()), sorted(c for c in map(code, hcl) if c is not None)))
+        gs.sort(key=lambda x: x[0])
         result = None
         for site in sites:
             ps = block_path(body, site)
@@ -233,6 +368,8 @@ def generate(repo, emit, src, func_body):
                 r'throw\(\s*(\w+)')
     for fname, field in (('src/String.c', r's->val'), ('src/Tuple.c', r't->items')):
         s = src(fname)
+        vhelpers.clear()
+        vhelpers.update(refusal_helpers(s, 'ValueError'))
         for mm in re.finditer(r'^static\s+[\w\s\*]+?\b(\w+)\s*\([^;{]*\)\s*\{', s, re.M):
             name = mm.group(1)
             body = func_body(s, re.escape(mm.group(0)))
@@ -309,7 +446,12 @@ def generate(repo, emit, src, func_body):
 
     H = r'sizeof\(struct Header\)'
     b = func_body(a, r'static\s+var\s+alloc_by\s*\(\s*var\s+type\s*,\s*int\s+method\s*\)\s*\{')
-    shape('hdr_lay_alloc_by', b and re.search(r'calloc\(1,\s*%s\s*\+\s*size\(type\)\)' % H, b))
+    # (helpers called with `type` searched too; a local `size_t total = H + size(type); calloc(1, total)` is the same request)
+    ab_text = (b or '') + ''.join(afuncs[n][1] for n in ab_helpers)
+    tot = re.search(r'size_t\s+(\w+)\s*=\s*%s\s*\+\s*size\(type\)\s*;' % H, ab_text)
+    shape('hdr_lay_alloc_by', re.search(r'calloc\(1,\s*%s\s*\+\s*size\(type\)\)' % H, ab_text)
+          or (tot and re.search(r'calloc\(1,\s*%s\s*\)' % re.escape(tot.group(1)), ab_text)
+              and len(re.findall(r'\b%s\b' % re.escape(tot.group(1)), ab_text)) == 2))
     shape('hdr_lay_stack', re.search(r'#define\s+CelloStruct\(T,\s*\.\.\.\)\s*CelloObject\(T,\s*sizeof\(struct T\),', h)
           and re.search(r'\(char\[%s\s*\+\s*sizeof\(struct T\)\]\)\{0\}' % H, h))
     ar = src('src/Array.c')
@@ -318,7 +460,9 @@ def generate(repo, emit, src, func_body):
           and re.search(r'static\s+var\s+Array_Item\(struct Array\*\s*a,\s*size_t\s+i\)\s*\{\s*return\s+\(char\*\)a->data\s*\+\s*Array_Step\(a\)\s*\*\s*i\s*\+\s*%s;\s*\}' % H, ar)
           and re.search(r'static\s+size_t\s+Array_Size_Round\(size_t\s+s\)\s*\{\s*return\s+\(\(s\s*\+\s*sizeof\(var\)\s*-\s*1\)\s*/\s*sizeof\(var\)\)\s*\*\s*sizeof\(var\);\s*\}', ar)
           and len(re.findall(r'a->tsize\s*=\s*Array_Size_Round\(size\(a->type\)\);', ar)) == len(re.findall(r'a->tsize\s*=', ar))
-          and re.search(r'struct Header\*\s*head\s*=\s*\(struct Header\*\)\(\(char\*\)a->data\s*\+\s*Array_Step\(a\)\s*\*\s*i\);', ar)
+          # the element's header sits at data + step*i, written either way (Array_Item(a, i) is data + step*i + H)
+          and (re.search(r'struct Header\*\s*head\s*=\s*\(struct Header\*\)\(\(char\*\)a->data\s*\+\s*Array_Step\(a\)\s*\*\s*i\);', ar)
+               or re.search(r'header_init\(\s*\(char\*\)Array_Item\(a,\s*i\)\s*-\s*%s\s*,\s*a->type,' % H, ar))
           and all(re.search(r'Array_Step\(a\)\s*\*\s*a->nslots|a->nslots\s*\*\s*Array_Step\(a\)', x)
                   for x in re.findall(r'(?:malloc|realloc)\([^;]*;', ar)))
     li = src('src/List.c')
